@@ -962,6 +962,11 @@ class Cov(Reduction):
     reduction_aggregate = staticmethod(_cov_corr_agg)
     corr = False
 
+    def _simplify_up(self, parent, dependents):
+        # The result is labelled by the frame's columns on both axes, so
+        # selecting output columns must not shrink the input columns
+        return
+
     @property
     def chunk_kwargs(self):
         return {"corr": self.corr}
